@@ -109,7 +109,9 @@ theorem conf_opening_hours {k t} (h : Conf g_opening_hours false k t) :
   have hl := loop_safe ‹StarOf _ _ _ _›
   have hq1 : Tree.rule _ = PRule.rule_sequence := ‹_›
   have hq2 : ∀ op, Safe _ (buildRuleSequence _ op) := ‹_›
-  build_simp_only [buildOpeningHours, buildOpeningHoursLoop, hq1]
+  build_simp_only [buildOpeningHours]
+  rw [buildOpeningHoursLoop.eq_def]
+  simp only [hq1]
   refine Safe.bind (hq2 .normal) (fun r hr => ?_)
   refine Safe.bind hl (fun rs hrs => ?_)
   simp only [Safe.ok_iff, ParserWF]
